@@ -143,6 +143,27 @@ theorem T_C14_rigid_grid (cells : List (List Nat)) (p : List V3) (ci : Nat) (hci
   exact sigHexWith_rigid _ _ _ _ w a t hN (by rw [hlen]; exact T_C14_tables.1)
     (by intro h; rw [h] at hlen; simp at hlen)
 
+/-- the same for a grid of quadrilateral cells (`QuadGrid`), e.g. a sketch rotated out of its plane -/
+theorem T_C14_rigid_grid_quad (cells : List (List Nat)) (p : List V3) (ci : Nat) (hci : ci < cells.length)
+    (hg : GridOk ⟨C15.quadKind, cells, p.length⟩ p 4) (w : Rat) (a t : V3) (hN : w * w + V3.dot a a ≠ 0) :
+    sigOfCell ⟨C15.quadKind, cells, p.length⟩ (p.map (rigid w a t)) ci =
+      sigOfCell ⟨C15.quadKind, cells, p.length⟩ p ci := by
+  have hm := getD_mem_of_lt cells [] ci hci
+  have hc := hg.2 _ hm
+  unfold sigOfCell
+  simp only [C15.quadKind, show ((4 : Nat) == 4) = true by decide, if_true]
+  rw [cellPts_map _ _ _ hc.2]
+  have hnb : (fun i => ((C15.cellNbrs ⟨C15.quadKind, cells, p.length⟩ ci).getD i none).map
+        (fun cj => avg (cellPts (p.map (rigid w a t)) (cells.getD cj [])))) =
+      fun i => (((C15.cellNbrs ⟨C15.quadKind, cells, p.length⟩ ci).getD i none).map
+        (fun cj => avg (cellPts p (cells.getD cj [])))).map (rigid w a t) := by
+    funext i; exact nb_rigid _ p 4 hg ci i w a t
+  simp only [C15.quadKind] at hnb
+  rw [hnb]
+  have hlen : (cellPts p (cells.getD ci [])).length = 4 := by
+    unfold cellPts; rw [List.length_map]; exact hc.1
+  exact sigQuadWith_rigid _ _ _ _ w a t hN T_C14_tables.2.1 hlen (by decide)
+
 /-- the same for a uniform scaling of all grid points, on the scale-free signature -/
 theorem T_C14_scale_grid (cells : List (List Nat)) (p : List V3) (ci : Nat) (k : Rat) (hk : 0 < k) :
     (sigOfCell ⟨C15.hexKind, cells, p.length⟩ (p.map (V3.smul k)) ci).norm =
@@ -166,7 +187,7 @@ example : C15.cellNbrs ⟨C15.hexKind, [[0, 1, 2, 3, 4, 5, 6, 7], [4, 5, 6, 7, 8
 
 /-! ### histories of `GridBase.update` (no memory of earlier reads) -/
 
-/-- Whatever sequence of reads and `grid.update(i, position)` calls came before, a read reports for every
+/-- Whatever sequence of reads, `grid.update(i, position)` calls and whole-array writes `grid.points[:] = …` came before, a read reports for every
     cell exactly what a grid built freshly on the current points reports: the value depends on the shape
     now, not on the history of moves. -/
 theorem T_C14_history (g : C15.Grid) (p : List V3) (ops : List HOp) :
@@ -183,6 +204,8 @@ theorem T_C14_history (g : C15.Grid) (p : List V3) (ops : List HOp) :
       · intro hnil; rw [hnil] at h; simp at h
     | update i v =>
       simpa only [List.cons_append, runHist, List.foldl_cons, stepPts] using ih (p.set i v)
+    | setAll q =>
+      simpa only [List.cons_append, runHist, List.foldl_cons] using ih (stepPts p (.setAll q))
 
 /-- … and also what a fresh grid on the rigidly moved current points reports (hexahedral grids) -/
 theorem T_C14_history_rigid (cells : List (List Nat)) (p : List V3) (ops : List HOp)
@@ -199,6 +222,25 @@ theorem T_C14_history_rigid (cells : List (List Nat)) (p : List V3) (ops : List 
     refine ⟨hg.1, fun c hc => ⟨(hg.2 c hc).1, fun i hi => ?_⟩⟩
     rw [hlen]; exact (hg.2 c hc).2 i hi
   have h := T_C14_rigid_grid cells (finalPts p ops) ci (List.mem_range.mp hci) hg' w a t hN
+  rw [hlen] at h
+  rw [h]
+
+/-- the same for quadrilateral grids: after any history — including one that rotated all points of the grid out
+    of their original plane, point by point or at once — a read equals a fresh grid on rigidly moved points -/
+theorem T_C14_history_rigid_quad (cells : List (List Nat)) (p : List V3) (ops : List HOp)
+    (hg : GridOk ⟨C15.quadKind, cells, p.length⟩ p 4) (w : Rat) (a t : V3) (hN : w * w + V3.dot a a ≠ 0) :
+    (runHist ⟨C15.quadKind, cells, p.length⟩ p (ops ++ [HOp.read])).getLast? =
+      some (cellQualities ⟨C15.quadKind, cells, p.length⟩ ((finalPts p ops).map (rigid w a t))) := by
+  rw [T_C14_history]
+  congr 1
+  unfold cellQualities
+  apply List.map_congr_left
+  intro ci hci
+  have hlen := finalPts_length p ops
+  have hg' : GridOk ⟨C15.quadKind, cells, (finalPts p ops).length⟩ (finalPts p ops) 4 := by
+    refine ⟨hg.1, fun c hc => ⟨(hg.2 c hc).1, fun i hi => ?_⟩⟩
+    rw [hlen]; exact (hg.2 c hc).2 i hi
+  have h := T_C14_rigid_grid_quad cells (finalPts p ops) ci (List.mem_range.mp hci) hg' w a t hN
   rw [hlen] at h
   rw [h]
 
